@@ -842,7 +842,7 @@ func divergenceKey(k *c11Case, ref refVerdict, refClass string, seen proto.Messa
 func usesProtoNameKey(in *ir.Message, tree *jn) bool {
 	for _, m := range tree.obj {
 		for _, f := range in.Fields {
-			if f.Name == m.key && ir.JSONName(f.Name) != m.key && msgFieldAnnotated(f) {
+			if f.Name == m.key && f.JSON() != m.key && msgFieldAnnotated(f) {
 				return true
 			}
 		}
@@ -901,8 +901,8 @@ func dropUnmatchedChildMembers(sh *c11Shape, in *ir.Message, tree *jn) (*jn, boo
 			return
 		}
 		for _, cf := range cm.Fields {
-			if !strings.EqualFold(ir.JSONName(cf.Name), cf.Name) {
-				drop[pfx+ir.JSONName(cf.Name)] = true
+			if !strings.EqualFold(cf.JSON(), cf.Name) {
+				drop[pfx+cf.JSON()] = true
 			}
 		}
 	}
@@ -935,7 +935,7 @@ func dropUnknownMembers(in *ir.Message, tree *jn) (*jn, bool) {
 	}
 	known := map[string]bool{}
 	for _, f := range in.Fields {
-		known[ir.JSONName(f.Name)] = true
+		known[f.JSON()] = true
 	}
 	out := tree.clone()
 	changed := false
@@ -1169,8 +1169,8 @@ func auxFor(key string, k *c11Case) (map[string]any, string) {
 				tags = append(tags, cf.Name)
 			}
 			for _, cf := range cm.Fields {
-				if k.tree.get(pfx+ir.JSONName(cf.Name)) != nil && !strings.EqualFold(ir.JSONName(cf.Name), cf.Name) {
-					return map[string]any{"op": "aux_case", "what": "child_key", "tags": tags, "key": ir.JSONName(cf.Name)}, "ignored"
+				if k.tree.get(pfx+cf.JSON()) != nil && !strings.EqualFold(cf.JSON(), cf.Name) {
+					return map[string]any{"op": "aux_case", "what": "child_key", "tags": tags, "key": cf.JSON()}, "ignored"
 				}
 			}
 		}
@@ -1180,7 +1180,7 @@ func auxFor(key string, k *c11Case) (map[string]any, string) {
 		}
 		var known []string
 		for _, f := range k.in.Fields {
-			known = append(known, ir.JSONName(f.Name))
+			known = append(known, f.JSON())
 		}
 		if k.tree != nil {
 			for _, m := range k.tree.obj {
@@ -1260,8 +1260,8 @@ func overwrittenVariantMember(k *c11Case) (string, *jn) {
 				tag = *f.Ann.OneofValue
 			}
 			if tag == dv.s {
-				if own := k.tree.get(ir.JSONName(f.Name)); own != nil {
-					return ir.JSONName(f.Name), own
+				if own := k.tree.get(f.JSON()); own != nil {
+					return f.JSON(), own
 				}
 			}
 		}
